@@ -128,6 +128,7 @@ CONTRACTS = [
             "block_unitary": "UNITARY_BLOCK(self.mode_1, self.mode_2)",
         },
         raises={},
+        result_type="matsq",
         replay=replay_bs,
         props=["C01"],
         assumes=["lemma M3 (identity outside a unitary 2x2 block is unitary): trusted mathematics"],
@@ -143,6 +144,7 @@ CONTRACTS = [
             "unit_modulus": "re(mat_at(result,self.mode,self.mode))**2 + im(mat_at(result,self.mode,self.mode))**2 == 1",
         },
         raises={},
+        result_type="matsq",
         replay=replay_ps,
         props=["C01"],
     ),
@@ -163,6 +165,7 @@ CONTRACTS = [
             "block_unitary": "UNITARY_BLOCK(self.mode, n_modes - 1)",
         },
         raises={},
+        result_type="matsq",
         replay=replay_loss,
         props=["C01"],
         assumes=["lemma M3 (identity outside a unitary 2x2 block is unitary): trusted mathematics"],
@@ -174,6 +177,7 @@ CONTRACTS = [
         modifies=[],
         ensures={"identity": ident_else([])},
         raises={},
+        result_type="matsq",
         props=["C01"],
     ),
     Contract(
@@ -197,6 +201,7 @@ CONTRACTS = [
                        "cplx(1 if swaps.get(i, i) == j else 0, 0)))",
         },
         raises={},
+        result_type="matsq",
         replay=replay_perm,
         props=["C01", "C09"],
     ),
